@@ -11,6 +11,7 @@ mod c04;
 mod c08;
 mod c09;
 mod c10;
+mod c12;
 mod c16;
 mod util;
 
@@ -30,6 +31,7 @@ fn main() {
         ("search", "c09") => c09::search(&args[3..]),
         ("search", "c08") => c08::search(&args[3..]),
         ("search", "c10") => c10::search(&args[3..]),
+        ("search", "c12") => c12::search(&args[3..]),
         ("replay", path) => {
             let text = match std::fs::read_to_string(path) {
                 Ok(t) => t,
@@ -46,6 +48,7 @@ fn main() {
                 "kani-values" => c16::replay(&text),
                 "c09-literal" => c09::replay(&text),
                 "c08-match" => c08::replay(&text),
+                "c12-consts" => c12::replay(&text),
                 "c16-circuit" | "c10-conversion" => {
                     println!("{text}");
                     3
